@@ -64,6 +64,9 @@ pub fn dt_of(f: FieldDataType) -> DT {
         FieldDataType::Vec => DT::Bytes,
         FieldDataType::ProtocolType => DT::Proto,
         FieldDataType::Unknown => DT::Unknown,
+        // a data type added by a later version of the library: no interpreter here, no oracle
+        #[allow(unreachable_patterns)]
+        _ => DT::Unknown,
     }
 }
 
